@@ -716,28 +716,40 @@ GUARDED_CORES = [
 
 def structural_cores(repo):
     from pyvc import inventory as inv
-    out = []
-    for rel0, core, allowed, label in GUARDED_CORES:
-        callers = []
-        for rel, path in inv.py_files(repo):
-            try:
-                t = inv.parse(path)
-            except SyntaxError:
-                continue
-            # innermost enclosing function of every call of the core
+    # every call site in jedi/: (callee name, file, enclosing function name, line)
+    sites = []
+    for rel, path in inv.py_files(repo):
+        try:
+            t = inv.parse(path)
+        except SyntaxError:
+            continue
 
-            def visit(node, cur):
-                if isinstance(node, (ast.FunctionDef, ast.AsyncFunctionDef)):
-                    cur = node.name
-                if isinstance(node, ast.Call):
-                    f = node.func
-                    nm = f.attr if isinstance(f, ast.Attribute) else f.id if isinstance(f, ast.Name) else None
-                    if nm == core:
-                        callers.append((rel.replace(os.sep, '/'), cur, node.lineno))
-                for ch in ast.iter_child_nodes(node):
-                    visit(ch, cur)
-            visit(t, '<module>')
-        extra = [c for c in callers if c[1] not in allowed]
+        def visit(node, cur):
+            if isinstance(node, (ast.FunctionDef, ast.AsyncFunctionDef)):
+                cur = node.name
+            if isinstance(node, ast.Call):
+                f = node.func
+                nm = f.attr if isinstance(f, ast.Attribute) else f.id if isinstance(f, ast.Name) else None
+                if nm is not None:
+                    sites.append((nm, rel.replace(os.sep, '/'), cur, node.lineno))
+            for ch in ast.iter_child_nodes(node):
+                visit(ch, cur)
+        visit(t, '<module>')
+    out = []
+    for rel0, core, allowed0, label in GUARDED_CORES:
+        allowed = set(allowed0)
+        # a helper that is itself only ever called from inside the guard is inside the guard too (fixpoint): splitting
+        # the guarded function into private helpers is not an alarm
+        changed = True
+        while changed:
+            changed = False
+            for c in {s_[2] for s_ in sites if s_[0] == core and s_[2] not in allowed}:
+                callers_of_c = [s_ for s_ in sites if s_[0] == c]
+                if callers_of_c and all(s_[2] in allowed for s_ in callers_of_c):
+                    allowed.add(c)
+                    changed = True
+        callers = [s_ for s_ in sites if s_[0] == core]
+        extra = [(s_[1], s_[2], s_[3]) for s_ in callers if s_[2] not in allowed]
         out.append({'id': 'guarded-core:%s' % core, 'kind': 'inventory', 'definite': bool(extra),
                     'ok': (not extra) if callers else None, 'label': 'give-up guard cannot be bypassed: ' + label,
                     'detail': 'calls outside the guard: %r' % (extra,)})
